@@ -420,8 +420,12 @@ func c03Tracker(p *core.Program, r *core.Report) {
 		if v == nil || !v.IsField() {
 			return ""
 		}
-		if v.Name() == "pathToName" || v.Name() == "nameToPath" {
-			return v.Name()
+		// by role (the map Imports() returns vs. the other one), reported under today's names
+		switch fieldRole(p, v) {
+		case "tracker.byPath":
+			return "pathToName"
+		case "tracker.byName":
+			return "nameToPath"
 		}
 		return ""
 	}
@@ -512,7 +516,7 @@ func c03Tracker(p *core.Program, r *core.Report) {
 			if !ok {
 				continue
 			}
-			if fld := core.FieldOf(info, ix.X); fld != nil && fld.Name() == mapName && core.SameRef(info, ix.Index, key) {
+			if fld := core.FieldOf(info, ix.X); fld != nil && isTrackerMap(fld) == mapName && core.SameRef(info, ix.Index, key) {
 				return true
 			}
 		}
@@ -575,13 +579,13 @@ func c03Tracker(p *core.Program, r *core.Report) {
 				continue
 			}
 			root := cs.In.Root()
-			ok := root.Name == "(*defaultImportTracker).AddType" || isInitFunc(root)
+			ok := root == trackerMethod(p, "AddType") || isInitFunc(root)
 			r.Check(ok, "R3", cs.In, "tracker store function is reached only through AddType (and std's init)", cs.Call.Pos(), "caller is AddType / init", "the tracker is filled from an unexpected caller")
 		}
 	}
 	// LocalNameOf / Imports are plain reads of the same map
-	for _, spec := range []struct{ fn, what string }{{"(*defaultImportTracker).LocalNameOf", "LocalNameOf reads pathToName[path]"}, {"(*defaultImportTracker).Imports", "Imports returns pathToName"}} {
-		f := p.FuncByName("pkg/namer", spec.fn)
+	for _, spec := range []struct{ fn, what string }{{"LocalNameOf", "LocalNameOf reads pathToName[path]"}, {"Imports", "Imports returns pathToName"}} {
+		f := trackerMethod(p, spec.fn)
 		if f == nil {
 			r.Anchor("R4", "pkg/namer."+spec.fn)
 			continue
